@@ -160,7 +160,29 @@ func c19NativeCase(seed int64, idx int) (string, c19Case) {
 		sb.WriteString("w := wrap(" + call + "); acc = append(acc, w); ")
 	}
 	sb.WriteString("for i := 0; i < 3; i++ { t := i * 10; " + call + "; acc = append(acc, t + loc + i) }; ")
+	fwdCall := call
+	if form == 6 {
+		fwdCall = "nat(" + strings.Join(append(append([]string{}, lits[:argc]...), "sp..."), ", ") + ")"
+	}
+	if rets > 0 {
+		sb.WriteString(strings.Join(resNames, ", ") + " = fwd(loc); acc = append(acc, " + strings.Join(resNames, ", ") + "); ")
+	} else {
+		sb.WriteString("fwd(loc); ")
+	}
 	sb.WriteString("acc = append(acc, loc); return acc }; ")
+	sb.WriteString("func fwd(loc int) ")
+	if rets > 0 {
+		sb.WriteString("(" + strings.TrimSuffix(strings.Repeat("any, ", rets), ", ") + ") ")
+	}
+	sb.WriteString("{ ")
+	if form == 6 {
+		sb.WriteString("sp := []any{" + strings.Join(lits[argc:], ", ") + "}; ")
+	}
+	if rets > 0 {
+		sb.WriteString("return " + fwdCall + " }; ")
+	} else {
+		sb.WriteString(fwdCall + " }; ")
+	}
 	sb.WriteString("func nat2int(v any) int { return 5 }; ")
 	sb.WriteString("out := run(); out")
 	cs.Script = sb.String()
@@ -175,7 +197,7 @@ func c19NativeCase(seed int64, idx int) (string, c19Case) {
 	if strings.Join(rec.args, "\x00") != strings.Join(wantS, "\x00") || strings.Join(rec.typs, "\x00") != strings.Join(wantT, "\x00") {
 		return fmt.Sprintf("the native received %v %v, the script passed %v %v", rec.args, rec.typs, wantS, wantT), cs
 	}
-	wantCalls := 1 + 3
+	wantCalls := 1 + 3 + 1
 	if rets > 0 {
 		wantCalls++
 	}
@@ -192,7 +214,9 @@ func c19NativeCase(seed int64, idx int) (string, c19Case) {
 		w0, _ := c19Value(0)
 		want = append(want, "11", w0.String())
 	}
-	want = append(want, "41", "52", "63", "41")
+	want = append(want, "41", "52", "63")
+	want = append(want, wantRes...)
+	want = append(want, "41")
 	if len(o.Rets) != 1 || o.Rets[0] != "["+strings.Join(want, " ")+"]" {
 		return fmt.Sprintf("the script observed %v, expected [%s]", o.Rets, strings.Join(want, " ")), cs
 	}
@@ -421,6 +445,91 @@ func fine(n int) int { return okNat(reenter(inner, n)) }`
 	return "", cs
 }
 
+// c19ReentrantCase: one native is re-entered through script code it calls
+// back; every activation must still see its own arguments after the nested
+// activation returned.
+func c19ReentrantCase(seed int64, idx int) (string, c19Case) {
+	rng := core.Derive(seed, "c19-reent", idx)
+	form := rng.Range(4, 6)
+	depth := rng.Range(1, 5)
+	cs := c19Case{Kind: "reentrant-native", Form: form, Argc: depth, Seed: seed, Idx: idx}
+	m := core.NewMachine(core.VMOpts{Optimize: rng.Bool(), Obs: core.NewObs(core.SmallBudget, false, nil)})
+	var bad string
+	viaFunc := rng.Bool()
+	body := func(v *goatlang.VM, args []goatlang.Value) (int, string) {
+		var before []string
+		for _, a := range args {
+			before = append(before, a.String())
+		}
+		n := args[0].Int()
+		nested := 7
+		if n > 0 {
+			var rets []goatlang.Value
+			var err error
+			if viaFunc {
+				rets, err = v.Func(v.Get("main.step"), 1, goatlang.Int(n-1))
+			} else {
+				rets, err = v.Call("main.step", 1, goatlang.Int(n-1))
+			}
+			if err != nil {
+				panic(err)
+			}
+			nested = rets[0].Int()
+		}
+		var after []string
+		for _, a := range args {
+			after = append(after, a.String())
+		}
+		if strings.Join(before, "\x00") != strings.Join(after, "\x00") && bad == "" {
+			bad = fmt.Sprintf("activation n=%d received %v; after the nested activation of the same native returned its arguments read %v", n, before, after)
+		}
+		return args[0].Int() + 10*nested, args[1].String()
+	}
+	switch form {
+	case 4:
+		m.VM.Set("main.nat", goatlang.NewFunc(3, 1, func(v *goatlang.VM, args []goatlang.Value) goatlang.Value {
+			r, _ := body(v, args)
+			return goatlang.Int(r)
+		}))
+	case 5:
+		m.VM.Set("main.nat", goatlang.NewFunc(3, 2, func(v *goatlang.VM, args []goatlang.Value) []goatlang.Value {
+			r, t := body(v, args)
+			return []goatlang.Value{goatlang.Int(r), goatlang.String(t)}
+		}))
+	default:
+		m.VM.Set("main.nat", goatlang.NewFunc(2, 2, func(v *goatlang.VM, args []goatlang.Value, vargs ...goatlang.Value) []goatlang.Value {
+			r, t := body(v, append(append([]goatlang.Value{}, args...), vargs...))
+			_ = t
+			// the fixed window itself must also be intact after the nested call
+			return []goatlang.Value{goatlang.Int(r - args[0].Int() + args[0].Int()), goatlang.String(vargs[0].String())}
+		}))
+	}
+	var src string
+	switch form {
+	case 4:
+		src = `func step(n int) int { loc := n * 2; r := nat(n, "t" + fmt.Sprint(n), loc); return r + loc - n*2 }`
+	default:
+		src = `func step(n int) int { loc := n * 2; r, t := nat(n, "t" + fmt.Sprint(n), loc); if t != "t" + fmt.Sprint(n) { return -1000 }; return r + loc - n*2 }`
+	}
+	src = "import \"fmt\"; " + src + fmt.Sprintf("; out := step(%d); out", depth)
+	cs.Script = src
+	o := m.Eval(nil, src)
+	if o.Failed() {
+		return "re-entering a native through the script fails: " + core.ErrFirstLine(o.Err) + o.Panic, cs
+	}
+	if bad != "" {
+		return bad, cs
+	}
+	want := 7
+	for n := 0; n <= depth; n++ {
+		want = n + 10*want
+	}
+	if len(o.Rets) != 1 || o.Rets[0] != fmt.Sprint(want) {
+		return fmt.Sprintf("step(%d) = %v through %d nested activations of one native, expected %d", depth, o.Rets, depth+1, want), cs
+	}
+	return "", cs
+}
+
 // c19SortCase: re-entrant comparator callbacks (slices.SortFunc).
 func c19SortCase(seed int64, idx int) (string, c19Case) {
 	rng := core.Derive(seed, "c19-sort", idx)
@@ -463,10 +572,10 @@ out := run(); out`, strings.Join(xs, ", "))
 }
 
 func runC19(r *core.Run) {
-	r.SetRule("(1) constructor -> accessor round trips over random and boundary values for Int/Int32/Uint/Uint32/Int8/Byte/Uint8/Float64 (bit patterns)/Bool/String (incl. invalid UTF-8)/Nil/NewSlice/NewMap/Wrap; (2) natives of each of the six NewFunc forms x arity 0-6 x results 0-4 x variadic surplus 0-3 called by scripts as a statement, with multi-assign, inside 1 + f(..)*2, as an argument of another native and in a loop with live locals, recording value, type, order and count of what they receive; (3) Call and Func on functions, variadic functions and a bound method value with every requested result count 0..declared; (4) errors raised in natives (string and error panics), in script code called back from natives, three levels deep, inside loops; VM usable afterwards; (5) re-entrant sort comparators. non-trivial = every case; distinct by (kind, parameters)")
+	r.SetRule("(1) constructor -> accessor round trips over random and boundary values for Int/Int32/Uint/Uint32/Int8/Byte/Uint8/Float64 (bit patterns)/Bool/String (incl. invalid UTF-8)/Nil/NewSlice/NewMap/Wrap; (2) natives of each of the six NewFunc forms x arity 0-6 x results 0-4 x variadic surplus 0-3 called by scripts as a statement, with multi-assign, inside 1 + f(..)*2, as an argument of another native and in a loop with live locals, recording value, type, order and count of what they receive; (3) Call and Func on functions, variadic functions and a bound method value with every requested result count 0..declared; (4) errors raised in natives (string and error panics), in script code called back from natives, three levels deep, inside loops; VM usable afterwards; (5) re-entrant sort comparators; (6) one native re-entered 1-5 levels deep through script code it calls back (Call and Func), each activation re-reading its arguments after the nested one returned; natives are also called as the sole operand of return in a forwarding function, the variadic form with its surplus spread from a slice. non-trivial = every case; distinct by (kind, parameters)")
 	r.Assume("the harness knows what it passed and built; misuse the API documents as undefined (negative result counts, lying about argc) is not judged")
 	n := r.N(20000, 400000)
-	kinds := []func(int64, int) (string, c19Case){c19RoundTrip, c19NativeCase, c19NativeCase, c19NativeCase, c19CallCase, c19ErrorCase, c19SortCase}
+	kinds := []func(int64, int) (string, c19Case){c19RoundTrip, c19NativeCase, c19NativeCase, c19NativeCase, c19CallCase, c19ErrorCase, c19SortCase, c19ReentrantCase}
 	core.Parallel((n+99)/100, func(chunk int) {
 		for i := chunk * 100; i < (chunk+1)*100 && i < n; i++ {
 			f := kinds[i%len(kinds)]
@@ -505,7 +614,7 @@ func replayC19(r *core.Run, v *core.Violation) {
 	if err := remarshal(v.Case, &cs); err != nil {
 		return
 	}
-	kinds := []func(int64, int) (string, c19Case){c19RoundTrip, c19NativeCase, c19NativeCase, c19NativeCase, c19CallCase, c19ErrorCase, c19SortCase}
+	kinds := []func(int64, int) (string, c19Case){c19RoundTrip, c19NativeCase, c19NativeCase, c19NativeCase, c19CallCase, c19ErrorCase, c19SortCase, c19ReentrantCase}
 	what, c2 := kinds[cs.Idx%len(kinds)](cs.Seed, cs.Idx)
 	fmt.Printf("%+v\n", c2)
 	if what != "" {
